@@ -83,10 +83,11 @@ vf_fail (const char *msg, const char *file, int line)
 	_exit (77) ;
 }
 
+/* A false assumption in replay normally concerns a value the solver sliced away as irrelevant
+** (it reads as 0 here). Execution continues; run_check.py then only accepts an assertion
+** failure that carries the same text as the solver's counterexample. */
 void
 vf_assume_fail (const char *cond, const char *file, int line)
 {	fprintf (stderr, "REPLAY-ASSUME-FALSE: %s (%s:%d)\n", cond, file, line) ;
-	fflush (NULL) ;
-	_exit (79) ;
 }
 #endif
